@@ -342,7 +342,42 @@ def r11_9(run, model):
         raise AnalysisIncomplete("MultilineStrExpr arm not found")
 
 
+def r11_10(run, model):
+    run.rule("R11.10", "the Pratt loop stops an operand exactly when the next operator binds *less* tightly than the context (`l_bp < min_bp`): "
+                       "with `<=` equal powers stop too, and the only tie the tables allow - prefix (r_bp) against `.` (l_bp) - flips: "
+                       "-a.b would parse as (-a).b")
+    f = model.fn("expr_bp", TB.EXPR)
+    helpers = {g.name: g for g in model.fns(TB.EXPR) if g.body is not None}
+    n = 0
+    for iff in S.find(f.body, "If"):
+        if not any(x["k"] == "Break" for x in S.walk(iff["then"])):
+            continue
+        c = S.norm_ws(run.facts.text(TB.EXPR, iff["cond"]["sp"]))
+        if "min_bp" not in c:
+            continue
+        n += 1
+        ok = c in ("l_bp<min_bp", "min_bp>l_bp")
+        how = c
+        m = re.fullmatch(r"!(\w+)\(l_bp,min_bp\)", c)
+        if m and m.group(1) in helpers:
+            hb = S.norm_ws(run.facts.text(TB.EXPR, helpers[m.group(1)].body["sp"])).strip("{}")
+            ps = [p["pat"]["name"] for p in helpers[m.group(1)].params()]
+            if len(ps) == 2:
+                hb = re.sub(r"\b" + ps[0] + r"\b", "l_bp", hb)
+                hb = re.sub(r"\b" + ps[1] + r"\b", "min_bp", hb)
+            ok = hb in ("l_bp>=min_bp", "min_bp<=l_bp", "!(l_bp<min_bp)")
+            how = f"!{m.group(1)}(..) where it is `{hb}`"
+        run.ob("R11.10", f"expr_bp|operand ends only when l_bp < min_bp #{n}", ok, site(TB.EXPR, iff["sp"]), f"break condition: {how}",
+               witness="-acct.balance parses as (-acct).balance; !door.locked fails to type-check")
+    run.floor("binding-power comparisons in expr_bp", n, 2)
+
+
 def run(run, model):
+    run.try_rule(r11_10, model)
+    from rules import c10
+    run.rule("R11.11", "a literal's value is parsed at its own width (shared with C10 R10.1 / R10.2: an f32 literal is not rounded through f64)")
+    run.try_rule(c10.r10_1, model)
+    run.try_rule(c10.r10_2, model)
     run.try_rule(r11_8, model)
     run.try_rule(r11_9, model)
     run.try_rule(r11_6, model)
